@@ -4,6 +4,7 @@ package main
 
 import (
 	"fmt"
+	"regexp"
 	"go/token"
 	"go/types"
 	"sort"
@@ -323,10 +324,10 @@ func (x *FnExec) fnName() string {
 	return shortName(x.fn.String())
 }
 
+var reOsmoPrefix = regexp.MustCompile(`github\.com/osmosis-labs/osmosis/(v\d+/)?`)
+
 func shortName(s string) string {
-	s = strings.ReplaceAll(s, "github.com/osmosis-labs/osmosis/v30/", "")
-	s = strings.ReplaceAll(s, "github.com/osmosis-labs/osmosis/", "")
-	return s
+	return reOsmoPrefix.ReplaceAllString(s, "")
 }
 
 // ---------- environment for contract clauses ----------
@@ -384,6 +385,7 @@ func (e *Engine) VerifyFunction(fn *ssa.Function, con *Contract) (obls []*Obliga
 		out: map[*ssa.BasicBlock]*State{}, edge: map[[2]int]Term{}, heapBool: map[string]bool{},
 		loopOrd: map[*ssa.BasicBlock]int{}, backEdge: map[[2]int]bool{}, headerSt: map[*ssa.BasicBlock]*State{},
 		nameAt: map[string][]ssa.Value{}, assertHit: map[int]bool{}, ptrLeaves: map[ssa.Value][]Leaf{}, nonNil: map[Term]bool{}}
+	x.ctx.pow10Max = con.Pow10Max
 	defer func() {
 		if r := recover(); r != nil {
 			errs = append(x.errs, fmt.Sprintf("internal error in %s: %v", fn.String(), r))
@@ -437,6 +439,7 @@ func (x *FnExec) run() {
 	}
 	pre = append(pre, x.globalInvs(env)...)
 	pre = append(pre, x.implicitModPre(x.con, env)...)
+	pre = append(pre, x.lemmaInstances(env)...)
 	reach0 := x.ctx.Define("R_entry", SBool, And(pre...))
 	st.reach = reach0
 	x.obligeSat("vacuity", "vacuity", "requires and global invariants are satisfiable", reach0)
@@ -472,20 +475,25 @@ func (x *FnExec) addFreeVarNames(env *Env) {
 
 func (x *FnExec) globalInvs(env *Env) []Term {
 	var out []Term
-	pkgPath := ""
-	if env.pkg != nil {
-		pkgPath = env.pkg.Pkg.Path()
-	}
 	used := x.usedGlobals()
-	for _, g := range x.eng.cs.Globals[pkgPath] {
-		if !used[g.Name] {
-			continue
-		}
-		out = append(out, env.EvalBool(g.Inv.E))
-		// the global's value is a well-formed pre-existing value
-		if tv, ok := env.lookup(g.Name); ok && tv.T != nil {
-			a0 := x.entry.alloc
-			out = append(out, x.typeInv(tv.V, tv.T, &a0))
+	for _, pkgPath := range sortedKeys(x.eng.cs.Globals) {
+		for _, g := range x.eng.cs.Globals[pkgPath] {
+			if !used[pkgPath+"."+g.Name] {
+				continue
+			}
+			sub := *env
+			sub.pkg = x.eng.ssaPkg(pkgPath)
+			if sub.pkg == nil {
+				continue
+			}
+			sub.vars = map[string]TVal{}
+			sub.resolver = nil
+			out = append(out, sub.EvalBool(g.Inv.E))
+			// the global's value is a well-formed pre-existing value
+			if tv, ok := sub.lookup(g.Name); ok && tv.T != nil {
+				a0 := x.entry.alloc
+				out = append(out, x.typeInv(tv.V, tv.T, &a0))
+			}
 		}
 	}
 	return out
@@ -500,16 +508,25 @@ func (x *FnExec) implicitModPre(con *Contract, env *Env) []Term {
 	}
 	var imm []Term
 	used := x.usedGlobals()
-	for _, g := range x.eng.cs.Globals[env.pkg.Pkg.Path()] {
-		if !g.Immutable || !used[g.Name] {
-			continue
-		}
-		tv, ok := env.lookup(g.Name)
-		if !ok {
-			continue
-		}
-		if r, ok := bigRef(tv); ok {
-			imm = append(imm, r)
+	for _, pkgPath := range sortedKeys(x.eng.cs.Globals) {
+		for _, g := range x.eng.cs.Globals[pkgPath] {
+			if !g.Immutable || !used[pkgPath+"."+g.Name] {
+				continue
+			}
+			sub := *env
+			sub.pkg = x.eng.ssaPkg(pkgPath)
+			if sub.pkg == nil {
+				continue
+			}
+			sub.vars = map[string]TVal{}
+			sub.resolver = nil
+			tv, ok := sub.lookup(g.Name)
+			if !ok {
+				continue
+			}
+			if r, ok := bigRef(tv); ok {
+				imm = append(imm, r)
+			}
 		}
 	}
 	if len(imm) == 0 {
@@ -1083,8 +1100,8 @@ func (x *FnExec) usedGlobals() map[string]bool {
 				if o == nil || *o == nil {
 					continue
 				}
-				if g, ok := (*o).(*ssa.Global); ok {
-					x.usedG[g.Name()] = true
+				if g, ok := (*o).(*ssa.Global); ok && g.Pkg != nil {
+					x.usedG[g.Pkg.Pkg.Path()+"."+g.Name()] = true
 				}
 			}
 		}
@@ -1111,4 +1128,58 @@ func (x *FnExec) addModelTerms(name string, v Val, t types.Type) {
 			x.modelTerms = append(x.modelTerms, [2]string{desc + "->Big", Sel(x.initHeap("Big", false), flat[i].T)})
 		}
 	}
+}
+
+// lemmaInstances: "uses L(args)" assumes the instance of lemma L at the given arguments.
+// L is proved as a lemma obligation of every property this contract is tagged with.
+func (x *FnExec) lemmaInstances(env *Env) []Term {
+	var out []Term
+	for _, u := range x.con.LemmaUses {
+		var lem *Lemma
+		for _, l := range x.eng.cs.Lemmas {
+			if l.Name == u.Fn {
+				lem = l
+			}
+		}
+		if lem == nil {
+			x.errorf("uses: unknown lemma %s", u.Fn)
+			continue
+		}
+		for _, p := range x.con.Props {
+			found := false
+			for _, lp := range lem.Props {
+				if lp == p {
+					found = true
+				}
+			}
+			if !found {
+				x.errorf("uses: lemma %s is not an obligation of property %s", u.Fn, p)
+			}
+		}
+		if len(u.Args) != len(lem.Vars) {
+			x.errorf("uses: lemma %s takes %d arguments", u.Fn, len(lem.Vars))
+			continue
+		}
+		sub := *env
+		sub.vars = map[string]TVal{}
+		for k, v := range env.vars {
+			sub.vars[k] = v
+		}
+		vals := make([]TVal, len(u.Args))
+		for i, a := range u.Args {
+			vals[i] = env.Eval(a)
+		}
+		for i, v := range lem.Vars {
+			sub.vars[v[0]] = vals[i]
+		}
+		var hyps, concls []Term
+		for _, h := range lem.Hyps {
+			hyps = append(hyps, sub.EvalBool(h.E))
+		}
+		for _, c := range lem.Concl {
+			concls = append(concls, sub.EvalBool(c.E))
+		}
+		out = append(out, Implies(And(hyps...), And(concls...)))
+	}
+	return out
 }
